@@ -484,6 +484,7 @@ func (w *World) RunBlock(h int64, step *BlockStep) {
 	w.logBlock(L, h, res)
 
 	// the model follows the leader's outcomes
+	nviol0 := len(w.Viol)
 	w.applyBlockToModel(h, step, plans, res, block, preState)
 
 	// followers (lag is expressed by Fault{Kind:"lag"}: the follower skips this round and catches up later)
@@ -510,6 +511,21 @@ func (w *World) RunBlock(h int64, step *BlockStep) {
 		}
 	}
 	w.compareReplicas(h)
+	// state differences in a block that already shows a listed finding's shape are its consequences
+	blockShape := ""
+	for _, v := range w.Viol[nviol0:] {
+		if v.Shape != "" && blockShape == "" {
+			blockShape = v.Shape
+		}
+	}
+	if blockShape != "" {
+		for _, v := range w.Viol[nviol0:] {
+			if v.Shape == "" && (strings.HasPrefix(v.Check, "diff.") || v.Check == "conservation") {
+				v.Shape = blockShape
+				v.Detail += " (in a block showing " + blockShape + ")"
+			}
+		}
+	}
 
 	if len(w.Viol) > 0 {
 		// a world that has hit a violation has diverged from the model: nothing after it is meaningful
